@@ -346,6 +346,15 @@ class Gen:
             return {"$k": "Event", "ref": self.ref(), "id": None,
                     "ts": BASE_US + rng.randint(0, grid) * MS, "dur": rng.choice(durs) * MS,
                     "data": copy.deepcopy(rng.choice(data_pool))}
+        if ty == "TomlDoc":
+            return self.toml_doc(rng, 0)
+        if ty.startswith("Dict["):
+            keys = self.scope.get("keys", ["x", "y", "t"])
+            d = {}
+            for k in keys:
+                if rng.random() < 0.6:
+                    d[k] = self.value("JV", hints)
+            return {"$k": "dict", "ref": self.ref(), "items": d}
         if ty == "JV":
             return copy.deepcopy(rng.choice(self.scope.get("jvs", [1, 2, "x", "y", [1, 2], None])))
         if ty in ("float", "Seconds"):
@@ -367,6 +376,19 @@ class Gen:
                 a, b = min(a, b), max(a, b)
             return {"$k": "Timeslot", "ref": self.ref(), "start": BASE_US + a * MS, "end": BASE_US + b * MS}
         raise NotImplementedError(f"generator for type {ty}")
+
+    def toml_doc(self, rng, depth):
+        """Random TOML-able document: scalars of several types (type-changing collisions likely), arrays, tables <= 3 deep."""
+        keys = ["a", "b", "c", "t", "u"]
+        scalars = [1, 1.0, True, 0, 0.0, False, 2, "s", "", [1, 2], ["x"]]
+        d = {}
+        for k in keys:
+            x = rng.random()
+            if x < 0.45:
+                d[k] = rng.choice(scalars)
+            elif x < 0.65 and depth < 2 and k in ("t", "u"):
+                d[k] = self.toml_doc(rng, depth + 1)
+        return d
 
     def ref(self):
         self.next_ref += 1
